@@ -37,14 +37,14 @@ K = {
     },
     "C17": {
         "prefix": r"c17_",
-        "thorough_only": r"c17_(le_|ge_|gt_entry|gt_resume1|gt_resume2|lt_resume3|eq_resume3|concat_(i(20|30|01|02|11|32|13)|entry_(03|30))|.*_odest|lt_entry_ooo)",
+        "thorough_only": r"c17_(le_|ge_|gt_entry|gt_resume1|gt_resume2|lt_resume3|eq_resume3|concat_(i(20|30|01|02|11|32|13)|entry_(03))|.*_odest|lt_entry_ooo)",
         "jobs": 8, "quick_timeout": 600, "thorough_timeout": 1500,
         "functions": ["vm::VmGreenThread::step (EqualString LessThanString LessThanOrEqualString GreaterThanString GreaterThanOrEqualString "
                       "ConcatStrings)", "vm::StringObject::new, Value::view_string"],
         "bounds": "ONE step from every valid state: entry (operands on the stack, index 0) and in-flight states with progress index i in 1..3 "
                   "(concatenation: index pairs (i1,i2)) under the loop invariant; strings: symbolic length 0..3, symbolic ASCII bytes. The step "
                   "either finishes with the reference answer on the whole strings or advances by one byte and re-establishes the invariant, so "
-                  "induction covers every slicing of the operation. Outside: strings longer than 3 bytes (the step is length-independent but only "
+                  "induction covers every slicing of the operation. Outside: the entry state of concatenation with lengths (3, 0) (solver gave up at 12 GB, measured; (0, 3), (2, 1), (0, 0) are covered), strings longer than 3 bytes (the step is length-independent but only "
                   "this bound is claimed), non-ASCII bytes (comparison is byte-wise; multi-byte text is covered at the S level only).",
         "assumptions": ["induction over steps is an argument on top of the solver-checked single steps"],
     },
